@@ -189,7 +189,7 @@ func (g *Gen) fill(kind string, p *Program) Op {
 			verb = int64("dsxq"[g.R.N(4)])
 		}
 		op.B = []string{hx([]byte(in))}
-		op.I = []int64{verb, errAt, g.slot(nRecv)}
+		op.I = []int64{verb, errAt, g.slot(nRecv), int64(g.R.N(6))}
 	case "TextRT":
 		op.D = []string{d()}
 		op.I = []int64{int64(g.R.N(len(textProducers))), int64(g.R.N(len(textConsumers)))}
@@ -221,7 +221,11 @@ func (g *Gen) fill(kind string, p *Program) Op {
 		op.S = []string{g.jsonDocToken(), g.jsonDocToken(), g.jsonDocToken()}
 	case "Decompose":
 		op.D = []string{d()}
-		op.I = []int64{g.slot(nBufs)}
+		op.I = []int64{g.slot(nBufs), int64(g.R.N(4) / 3), int64(g.R.N(nBufs))}
+		if g.R.P(1, 4) {
+			// small coefficients and small values
+			op.D = []string{parseLitForGen(fmt.Sprintf("%de%d", g.R.Range(-300, 300), g.R.Range(-20, 20)))}
+		}
 	case "ComposeRow":
 		op.I = []int64{int64(g.R.N(8)), g.slot(nRecv)}
 	case "Compose":
@@ -385,8 +389,13 @@ func PlanSchedule(g *Gen, p *Program, ei int, steps [][]uint64) {
 				op := &ep.Tasks[ti].Ops[oi]
 				op.Pre = nil
 				op.After = nil
+				op.PreLock = nil
 				if style == 0 {
 					continue
+				}
+				if g.R.P(1, 3) {
+					// no effect unless the tree takes locks
+					op.PreLock = append(op.PreLock, Preempt{Step: uint64(g.R.Range(1, 6)), To: g.R.N(nt)})
 				}
 				var n uint64
 				if ti < len(steps) && oi < len(steps[ti]) {
@@ -457,6 +466,17 @@ func GenerateFocus(prof *Profile, seed, run uint64, kinds []string) (*Program, *
 		}
 	}
 	g.decs = append(g.decs, g.Dec())
+	if g.R.P(1, 2) {
+		// wide variant: state that fills up with distinct arguments (caches
+		// with a budget, tables that grow) needs variety, not collisions
+		g.decs = nil
+		for i := 0; i < 6; i++ {
+			g.decs = append(g.decs, g.Dec())
+		}
+	}
+	if g.R.P(1, 3) {
+		g.decs = append(g.decs, "7c000000000000000000000000000000", "78000000000000000000000000000000", "f8000000000000000000000000000000")
+	}
 	for i := 0; i < 3; i++ {
 		g.lits = append(g.lits, g.Literal(false))
 	}
